@@ -277,6 +277,8 @@ def judge(ctx, route, spec, p, C0, stage, o, text, argv, dests, passed=()):
             detail = diff_class((steps_str(d[0]), d[1])) if d else (o.exc_type or o.code)
             if variant[0] == "yaml-comments":
                 detail = "any"
+            elif d and any(kind == "key" and k == "init_args" for kind, k in d[0]):
+                detail = "init_args-of-class-other-than-default"
             ctx.violation("roundtrip", f"{variant[0]}-only/{what}/{detail}", dict(route=route, at=steps_str(d[0]) if d else None, why=d[1] if d else None, spec=P.spec_summary(spec), config=short(C0, 600), text=short(text, 800), outcome=o.brief()))
             return
     mode = spec.get("mode", "yaml")
